@@ -4,14 +4,22 @@ import numpy as np, pandas as pd
 from . import core, fitgen, c04, c01
 
 
+TIMEOUTS = [0]
+
+
 def run_child(job, hashseed):
     d = tempfile.mkdtemp(prefix="verif_c10_")
     try:
         pin, pout = os.path.join(d, "job.pkl"), os.path.join(d, "out.json")
         pickle.dump(job, open(pin, "wb"))
         env = dict(os.environ, PYTHONHASHSEED=str(hashseed), PYTHONWARNINGS="ignore")
-        p = subprocess.run([sys.executable, "-m", "harness.c10_child", pin, pout], cwd=core.ROOT, env=env,
-                           capture_output=True, text=True, timeout=600)
+        try:
+            p = subprocess.run([sys.executable, "-m", "harness.c10_child", pin, pout], cwd=core.ROOT, env=env,
+                               capture_output=True, text=True, timeout=600)
+        except subprocess.TimeoutExpired:
+            # no verdict from this child (counted in the evidence); the other comparisons of the run still stand
+            TIMEOUTS[0] += 1
+            return {"timeout": True, "error": None, "features": {}}
         if not os.path.exists(pout):
             return {"error": "child failed: " + (p.stderr or "")[-300:], "features": {}}
         return json.load(open(pout))
@@ -84,6 +92,8 @@ def shuffled(rng, ds):
 def compare(base, other, feats, what, fails, expect_error=None, **kw):
     """`expect_error`: for a subset of the features of a rejected base fit, whether the subset contains a feature that is
     rejected on its own (then the subset must be rejected too, otherwise it must be accepted)"""
+    if other.get("timeout"):
+        return
     base_err = (base["error"] is not None) if expect_error is None else expect_error
     if base_err != (other["error"] is not None):
         fails.append({"kind": "property", "what": f"fit outcome differs: {what}", "base": base["error"] or "ok", "variant": other["error"] or "ok",
@@ -243,6 +253,7 @@ def worker(args):
         sigs.add(json.dumps(c01.describe(r)["X"])[:3000])
         if sample is None:
             sample = {"meta": r["meta"], "features": r["ds"]["quantitative"] + r["ds"]["qualitative"] + r["ds"]["ordinal"]}
+    stats["child_timeouts"] = TIMEOUTS[0]; TIMEOUTS[0] = 0
     return fails[:6], len(fails), stats, sample, len(sigs)
 
 
